@@ -9,6 +9,9 @@
 #define FIBER_ERROR (0)
 #define FIBER_SUCCESS (1)
 
+/* smallest stack a context is ever given; smaller requests are rounded up */
+#define FIBER_MIN_STACK_SIZE (1024)
+
 typedef void* (*fiber_run_function_t)(void*);
 
 #ifdef FIBER_STACK_SPLIT
